@@ -1,4 +1,5 @@
 import GN.Props.C04
+import GN.EventLoop.Progress
 open GN.Props.C04
 #print axioms accepted_is_executed_then_batch_then_queue
 #print axioms executed_is_a_prefix_of_accepted
@@ -7,3 +8,6 @@ open GN.Props.C04
 #print axioms terminate_drains_queue
 #print axioms controller_steps_keep_queue
 #print axioms replay_is_sound
+#print axioms GN.EventLoop.Progress.accepted_function_is_executed_by_loop_alone
+#print axioms GN.EventLoop.Progress.loop_enabled_for_pending_function
+#print axioms GN.EventLoop.Progress.loop_step_enabled_for_pending_function
